@@ -107,6 +107,7 @@ func (eng *Engine) writeBoundedReplay(prop string, r *boundedResult) string {
 		"oracle":        r.Check.Compares,
 		"replayed":      "the failing input was executed against the real code by the command below; it fails there",
 		"rerun":         r.Cmd,
+		"repo":          eng.repo,
 		"test_source":   filepath.Join(verifDir, "bounded", r.Check.File),
 		"test_output":   r.Output,
 	}, "", " ")
